@@ -1055,9 +1055,39 @@ func (ns Nodes) Sort(o NodeOrder) error {
 }
 
 // compareNodes compares two nodes to provide a deterministic ordering
-// between them. Two nodes cannot have the same Node.Info value.
+// between them. Two nodes of a graph cannot have the same Node.Info
+// value; nodes of a call tree can, and are then ordered by their signed
+// values and by the path leading to them from their root.
 func compareNodes(l, r *Node) bool {
-	return fmt.Sprint(l.Info) < fmt.Sprint(r.Info)
+	if li, ri := fmt.Sprint(l.Info), fmt.Sprint(r.Info); li != ri {
+		return li < ri
+	}
+	if l.Flat != r.Flat {
+		return l.Flat > r.Flat
+	}
+	if l.Cum != r.Cum {
+		return l.Cum > r.Cum
+	}
+	return nodePath(l) < nodePath(r)
+}
+
+// nodePath describes the chain of callers of a call tree node, which
+// identifies it among nodes with the same Info. It stops at the first
+// node that does not have exactly one caller.
+func nodePath(n *Node) string {
+	var path []string
+	seen := map[*Node]bool{n: true}
+	for len(n.In) == 1 {
+		for _, e := range n.In {
+			n = e.Src
+		}
+		if seen[n] {
+			break
+		}
+		seen[n] = true
+		path = append(path, fmt.Sprint(n.Info))
+	}
+	return strings.Join(path, "\x00")
 }
 
 // entropyScore computes a score for a node representing how important
@@ -1171,8 +1201,18 @@ func (el edgeList) Less(i, j int) bool {
 
 	to1 := el[i].Dest.Info.PrintableName()
 	to2 := el[j].Dest.Info.PrintableName()
+	if to1 != to2 {
+		return to1 < to2
+	}
 
-	return to1 < to2
+	// Distinct nodes may print alike (e.g. in a call tree).
+	if el[i].Src != el[j].Src {
+		return compareNodes(el[i].Src, el[j].Src)
+	}
+	if el[i].Dest != el[j].Dest {
+		return compareNodes(el[i].Dest, el[j].Dest)
+	}
+	return false
 }
 
 func (el edgeList) Swap(i, j int) {
